@@ -38,8 +38,8 @@ func init() {
 			"(D1) seal/open sibling agreement: the box.Seal behind SecretStore.GetShareableChainKey uses the own member-device holder's DEVICE private key (the key DeviceSign signs with) and the target-member parameter, the box.Open behind RegisterChainKey uses the holder's MEMBER private key (the key MemberSign signs with) and the sender-device parameter, both holders being obtained for the group parameter; both nonces derive from the group's public key and from nothing else, with the same origin signature on both sides; private/public keys go through the same conversion primitives on both sides; the opened bytes are the ciphertext parameter; box.Open failure and every error on the way up reject; what is registered is the decoded output of box.Open under the sender and group parameters, on every success path; GetShareableChainKey returns only box.Seal output. " +
 			"(D2) the recipient filter - the root-package function taking (metadata, local public key) and returning an error from which a GroupDeviceChainKeyAdded is decoded, the decode, the event-type guard and the recipient test each living in that function or in a module helper (depth <= 2), decoded values possibly carried in a local struct built by a helper - returns sender key and ciphertext decoded from one GroupDeviceChainKeyAdded taken from the metadata payload, only on the accepting side of (event type == GroupDeviceChainKeyAdded) and of (local key Equals decoded DestMemberPk); a test made in a helper counts when all success returns of the helper pass it and every caller up to the filter enforces the helper's error. " +
 			"(D3) every module call of RegisterChainKey takes sender and ciphertext from the results of one recipient-filter call (directly or through a map filled only with such results) which, looking through the filter and its helpers, are the DevicePk and the Payload of the decoded announcement; every use of the filter's results lies on the nil-error side of the filter call, and the filter is given the own MEMBER public key. " +
-			"(D4) announce: the metadata-event handler behind ActivateGroupContext calls SendSecret on every success path of the GroupMemberDeviceAdded branch with the MemberPk decoded from the event; activation subscribes before it starts the catch-up, sends to every member listed and registers from the listed events; SendSecret seals for exactly the member it addresses (GetShareableChainKey target = DestMemberPk = its parameter), publishes the sealed bytes under the own device key and has no success return that skips publishing. " +
-			"(D5) the set that SendSecret's 'already sent to this member' refusal reads is written only on the equal side of a comparison between the index's own DEVICE key and the DevicePk of the GroupDeviceChainKeyAdded event being indexed, keyed by that event's DestMemberPk, and is otherwise only initialised empty (an announcement by another device must never silence this device). " +
+			"(D4) announce: the metadata-event handler behind ActivateGroupContext calls SendSecret on every success path of the GroupMemberDeviceAdded branch with the MemberPk decoded from the event; activation subscribes before it starts the catch-up, sends to every member listed and registers from the listed events, both unconditionally (every success return of the activation, and every return of each function or goroutine body on the way, is preceded by the SendSecret loop over the listed members and by the RegisterChainKey loop over the listed announcements; an error return of the activation itself is the only excuse); SendSecret seals for exactly the member it addresses (GetShareableChainKey target = DestMemberPk = its parameter), publishes the sealed bytes under the own device key and has no success return that skips publishing. " +
+			"(D5) the set that SendSecret's 'already sent to this member' refusal reads is written only on the equal side of a comparison between the index's own DEVICE key and the DevicePk of the GroupDeviceChainKeyAdded event being indexed, keyed by that event's DestMemberPk, and is otherwise only initialised empty (an announcement by another device must never silence this device); the one other accepted writer is a reservation made by SendSecret itself (or a helper, depth <= 2) for its member parameter, provided every path of SendSecret from the reservation to a return that does not follow a successful publication passes a delete of that same key in that same set (a constant result chosen by a key-presence test, as in a check-and-mark helper, is recognised as reading the set). " +
 			"(D6) in the get-or-create function behind GetShareableChainKey (the function that returns a *DeviceChainKey and both looks up and stores under the chain-key datastore namespace) every store site is dominated by a lookup made under the same write lock, held without release from the lookup to the store: the key that gets sealed is either the stored one or one registered in the critical section that found it missing. " +
 			"(D7) the store-event subscriber of the metadata store (the function that opens log entries into *GroupMetadataEvent and emits them on the event bus, which is the only way the activated group context learns of GroupMemberDeviceAdded / GroupDeviceChainKeyAdded entries): the per-entry open call lies in a loop (in that function or, for a per-entry helper, around its call sites), no path from the failing side of the open call or of an Emit leaves that loop before its next iteration (return, break; a return from a callee that contains the loop counts), and every successfully opened entry reaches the Emit of its *GroupMetadataEvent before the next iteration: one unopenable entry must not suppress the events of the entries behind it. " +
 			"Not decided: NaCl box secrecy/integrity and Ed25519->X25519 conversion correctness (trusted); that the sealed DeviceChainKey is the current one beyond D6 (C09/C10 cover the store discipline); replication and scheduling (that every device really holds every key at quiescence for all join orders and delivery plans); release of parked messages after registration (C08).",
@@ -1992,6 +1992,7 @@ func c05D4(c *Ctx, tr *c05Tracer, filters []*c05Filter) {
 			"the "+l.what+" starts before the subscription to metadata events: an entry arriving in between is seen by neither")
 	}
 	// catch-up send
+	var sendCores, regCores []ssa.Instruction
 	nSendCatch := 0
 	for _, fn := range rfuncs {
 		if isHandler[fn] {
@@ -2008,6 +2009,7 @@ func c05D4(c *Ctx, tr *c05Tracer, filters []*c05Filter) {
 					continue
 				}
 				nSendCatch++
+				sendCores = append(sendCores, in)
 				c.analysed(fn)
 				c.check(c05InCycle(b), "D4", fnName(fn)+"+SendSecret(listed members)", posOf(call),
 					"activation sends the chain key to the members listed, in a loop over the list",
@@ -2049,6 +2051,34 @@ func c05D4(c *Ctx, tr *c05Tracer, filters []*c05Filter) {
 	}
 	if nRegCatch == 0 {
 		c.fail("D4", an+"+catch-up-register", activate.Pos(), "no recipient-filter call reachable from %s is fed from MetadataStore.ListEvents: announcements stored before activation are never registered", an)
+	}
+	// both catch-ups are reached on every successful path of the activation: no branch
+	// (other than an error return of the activation itself) skips them
+	for _, fn := range rfuncs {
+		if isHandler[fn] {
+			continue
+		}
+		for _, b := range fn.Blocks {
+			for _, in := range b.Instrs {
+				if ci, ok := in.(ssa.CallInstruction); ok {
+					if _, _, isReg := c05IsRegisterCall(ci.Common(), nil); isReg {
+						regCores = append(regCores, in)
+					}
+				}
+			}
+		}
+	}
+	if len(sendCores) > 0 {
+		ok, why := c05Unconditional(c, activate, sendCores)
+		c.check(ok, "D4", an+"+catch-up-send.unconditional", activate.Pos(),
+			"every successful activation reaches the SendSecret loop over the listed members",
+			"the activation can complete without running the SendSecret loop over the members already listed ("+why+"): members announced while no context was active never receive this device's chain key")
+	}
+	if len(regCores) > 0 && nRegCatch > 0 {
+		ok, why := c05Unconditional(c, activate, regCores)
+		c.check(ok, "D4", an+"+catch-up-register.unconditional", activate.Pos(),
+			"every successful activation reaches the registration loop over the announcements already in the log",
+			"the activation can complete without registering the announcements already in the log ("+why+"): chain keys published while no context was active (before activation, after a reopen) are never registered")
 	}
 
 	// ---- (c) SendSecret itself
@@ -2218,8 +2248,27 @@ func c05PresenceFields(w *World, v ssa.Value) []c05SetField {
 		cal = c05CalleeOf(call)
 		if cal != nil && cal.Blocks != nil && inModule(cal) {
 			for _, r := range returnsOf(cal) {
-				if rs := retResults(r); idx < len(rs) {
-					os = append(os, tr.origins(rs[idx], nil)...)
+				rs := retResults(r)
+				if idx >= len(rs) {
+					continue
+				}
+				os = append(os, tr.origins(rs[idx], nil)...)
+				// a constant result chosen by a test of key presence (check-and-mark helpers)
+				if _, isConst := constBool(rs[idx]); isConst {
+					for _, b := range cal.Blocks {
+						if len(b.Instrs) == 0 {
+							continue
+						}
+						ifi, ok := b.Instrs[len(b.Instrs)-1].(*ssa.If)
+						if !ok {
+							continue
+						}
+						for _, su := range b.Succs {
+							if edgeDominates(edge{b, su}, r.Block()) {
+								os = append(os, tr.origins(ifi.Cond, nil)...)
+							}
+						}
+					}
 				}
 			}
 		}
@@ -2388,6 +2437,9 @@ func c05D5(c *Ctx) {
 						nWrites++
 						c.analysed(fn)
 						cons := fnName(fn) + "+write(" + setName + ")"
+						if c05D5Reservation(c, tr, sendSecret, sf, x, isOwnerParam, cons) {
+							continue
+						}
 						// comparisons of the own device key with the event's sender device key
 						type cmp struct {
 							v   ssa.Value
@@ -2898,4 +2950,282 @@ func c05D7(c *Ctx) {
 	if nSubs == 0 {
 		c.undecided("D7", "metadata store-event subscriber", token.NoPos, "no function in %s opens log entries into *GroupMetadataEvent and emits them on the event bus", pkgRoot)
 	}
+}
+
+// c05D5Reservation: when SendSecret itself (or a module callee, depth <= 2) marks its member
+// parameter in the already-sent set ("reservation"), every path of SendSecret from the
+// reservation to a return that does not follow a successful publication must undo it (delete
+// of the same key in the same set). Returns false when mu is not such a reservation.
+func c05D5Reservation(c *Ctx, tr *c05Tracer, sendSecret *ssa.Function, sf c05SetField, mu *ssa.MapUpdate, isOwnerParam func(c05Origin) bool, cons string) bool {
+	memberIdx := -1
+	for i, p := range sendSecret.Params {
+		if c05IsPubKey(p.Type()) {
+			memberIdx = i
+		}
+	}
+	if memberIdx < 0 {
+		return false
+	}
+	isMember := func(o c05Origin) bool { return o.Kind == "param" && o.Fn == sendSecret && o.Param == memberIdx }
+	isSet := func(m ssa.Value) bool {
+		return c05Any(tr.origins(m, nil), func(o c05Origin) bool { return isOwnerParam(o) && o.Path == "."+sf.field })
+	}
+	frames := c05Frames(sendSecret, 2)
+	var resFrame *c05FrameOf
+	for i := range frames {
+		if frames[i].fn == mu.Parent() {
+			if c05All(c05NonConst(tr.origins(mu.Key, frames[i].ctx)), isMember) {
+				resFrame = &frames[i]
+			}
+		}
+	}
+	if resFrame == nil {
+		return false
+	}
+	setName := sf.owner.Obj().Name() + "." + sf.field
+	sn := fnName(sendSecret)
+	// where the reservation has happened, seen from SendSecret
+	var starts []edge
+	var startInstr ssa.Instruction
+	if len(resFrame.chain) == 0 {
+		startInstr = mu
+	} else {
+		site := resFrame.chain[0]
+		startInstr = site
+		// polarity of a bool result: the value returned after the write vs. without it
+		if call, ok := site.(*ssa.Call); ok && len(resFrame.chain) == 1 {
+			f := resFrame.fn
+			after := reach(mu.Block(), nil)
+			for i := 0; i < f.Signature.Results().Len(); i++ {
+				if !isBoolType(f.Signature.Results().At(i).Type()) {
+					continue
+				}
+				var wrote, not []bool
+				known := true
+				for _, r := range returnsOf(f) {
+					rs := retResults(r)
+					b, isC := constBool(rs[i])
+					if !isC {
+						known = false
+						continue
+					}
+					if after[r.Block()] {
+						wrote = append(wrote, b)
+					} else if isSuccessReturn(r) {
+						not = append(not, b)
+					}
+				}
+				same := func(l []bool, v bool) bool {
+					for _, x := range l {
+						if x != v {
+							return false
+						}
+					}
+					return true
+				}
+				if !known || len(wrote) == 0 || !same(wrote, wrote[0]) || !same(not, !wrote[0]) {
+					continue
+				}
+				if rv := resultValue(call, i); rv != nil {
+					ve := edgesOfVerdict(rv)
+					if wrote[0] {
+						starts = ve.Accept
+					} else {
+						starts = ve.Reject
+					}
+				}
+			}
+		}
+	}
+	if len(starts) == 0 {
+		// unconditional reservation: everything after the instruction
+		b := startInstr.Block()
+		for _, su := range b.Succs {
+			starts = append(starts, edge{b, su})
+		}
+	}
+	// releases and publications, seen from SendSecret
+	release := map[ssa.Instruction]bool{}
+	publish := map[ssa.Instruction]bool{}
+	for _, fr := range frames {
+		top := func(in ssa.Instruction) ssa.Instruction {
+			if len(fr.chain) > 0 {
+				return fr.chain[0].(ssa.Instruction)
+			}
+			return in
+		}
+		for _, b := range fr.fn.Blocks {
+			for _, in := range b.Instrs {
+				switch x := in.(type) {
+				case *ssa.Call:
+					if bi, ok := x.Common().Value.(*ssa.Builtin); ok && bi.Name() == "delete" && len(x.Common().Args) == 2 {
+						if isSet(x.Common().Args[0]) && c05All(c05NonConst(tr.origins(x.Common().Args[1], fr.ctx)), isMember) {
+							release[top(in)] = true
+						}
+					}
+				case *ssa.Alloc:
+					el := x.Type().(*types.Pointer).Elem()
+					if _, isPtr := el.(*types.Pointer); !isPtr && isNamed(el, pkgTypes, "GroupDeviceChainKeyAdded") {
+						publish[top(in)] = true
+					}
+				}
+			}
+		}
+	}
+	cut := map[edge]bool{}
+	tail := map[ssa.Value]bool{}
+	for in := range publish {
+		if call, ok := in.(*ssa.Call); ok {
+			if ev := errVerdict(call); ev != nil {
+				for _, e := range edgesOfVerdict(ev).Accept {
+					cut[e] = true
+				}
+				tail[ev] = true
+			}
+		}
+	}
+	seen := map[*ssa.BasicBlock]bool{}
+	var stack []edge
+	stack = append(stack, starts...)
+	var leak *ssa.Return
+	for len(stack) > 0 && leak == nil {
+		e := stack[len(stack)-1]
+		stack = stack[:len(stack)-1]
+		if cut[e] || seen[e.To] {
+			continue
+		}
+		seen[e.To] = true
+		released := false
+		for _, in := range e.To.Instrs {
+			if release[in] {
+				released = true
+			}
+		}
+		if released {
+			continue
+		}
+		if n := len(e.To.Instrs); n > 0 {
+			if r, ok := e.To.Instrs[n-1].(*ssa.Return); ok && e.To != sendSecret.Recover {
+				leak = r
+				continue
+			}
+		}
+		for _, su := range e.To.Succs {
+			stack = append(stack, edge{e.To, su})
+		}
+	}
+	why := ""
+	if leak != nil {
+		why = "return at " + c.pos(posOf(leak))
+		if len(release) == 0 {
+			why += " (the reservation is never undone)"
+		}
+	}
+	c.check(leak == nil, "D5", cons+".reservation", mu.Pos(),
+		"SendSecret reserves its member in "+setName+" and undoes the reservation on every path that does not follow a successful publication",
+		sn+" marks its member as served in "+setName+" before publishing, and a path that publishes nothing keeps the mark ("+why+"): every later SendSecret for that member answers 'already sent', which the callers take for success, so the member never receives this device's chain key")
+	return true
+}
+
+// c05Unconditional: every success return of root is preceded by the constructs in cores (a
+// construct inside a loop counts as reached when the loop is entered), directly or through
+// calls / go statements to module functions all of whose returns are preceded by them.
+func c05Unconditional(c *Ctx, root *ssa.Function, cores []ssa.Instruction) (bool, string) {
+	w := c.W
+	barrierBlk := map[*ssa.BasicBlock]bool{}
+	coreFns := map[*ssa.Function]bool{}
+	for _, in := range cores {
+		coreFns[in.Parent()] = true
+		if hdr, _ := c05LoopOf(in.Block()); hdr != nil {
+			barrierBlk[hdr] = true
+		} else {
+			barrierBlk[in.Block()] = true
+		}
+	}
+	reachesCore := map[*ssa.Function]bool{}
+	reaches := func(fn *ssa.Function) bool {
+		if v, ok := reachesCore[fn]; ok {
+			return v
+		}
+		r := false
+		for f := range w.reachableFuncs([]*ssa.Function{fn}, 3) {
+			if coreFns[f] {
+				r = true
+			}
+		}
+		reachesCore[fn] = r
+		return r
+	}
+	memo := map[*ssa.Function]bool{}
+	busy := map[*ssa.Function]bool{}
+	miss := map[*ssa.Function][]*ssa.Return{}
+	var must func(fn *ssa.Function, depth int) bool
+	must = func(fn *ssa.Function, depth int) bool {
+		if v, ok := memo[fn]; ok {
+			return v
+		}
+		if busy[fn] || len(fn.Blocks) == 0 || depth > 4 {
+			return false
+		}
+		busy[fn] = true
+		defer delete(busy, fn)
+		has := false
+		barrier := func(in ssa.Instruction) bool {
+			if barrierBlk[in.Block()] {
+				has = true
+				return true
+			}
+			switch in.(type) {
+			case *ssa.Call, *ssa.Go:
+				cal := c05CalleeOf(in.(ssa.CallInstruction))
+				if cal != nil && inModule(cal) && reaches(cal) && must(cal, depth+1) {
+					has = true
+					return true
+				}
+			}
+			return false
+		}
+		// evaluate the barrier on every instruction first (has), then the path query
+		for _, b := range fn.Blocks {
+			for _, in := range b.Instrs {
+				barrier(in)
+			}
+		}
+		by := c05SuccessWithout(fn, []edge{{nil, fn.Blocks[0]}}, barrier)
+		miss[fn] = by
+		memo[fn] = has && len(by) == 0
+		return memo[fn]
+	}
+	if must(root, 0) {
+		return true, ""
+	}
+	// explanation: the deepest function on the way that lets a return bypass the construct
+	var explain func(fn *ssa.Function, depth int) string
+	explain = func(fn *ssa.Function, depth int) string {
+		if depth > 4 {
+			return ""
+		}
+		for _, b := range fn.Blocks {
+			for _, in := range b.Instrs {
+				switch in.(type) {
+				case *ssa.Call, *ssa.Go:
+					cal := c05CalleeOf(in.(ssa.CallInstruction))
+					if cal != nil && cal != fn && inModule(cal) && reaches(cal) && !must(cal, depth+1) {
+						if s := explain(cal, depth+1); s != "" {
+							return s
+						}
+					}
+				}
+			}
+		}
+		if len(miss[fn]) > 0 {
+			return "in " + fnName(fn) + " the return at " + describeReturns(c, miss[fn]) + " is reachable without it"
+		}
+		return ""
+	}
+	why := explain(root, 0)
+	if why == "" {
+		why = "no unconditional path to it from " + fnName(root)
+	}
+	return false, why
 }
